@@ -17,7 +17,10 @@ RULE = ("(a) scaled (metamorphic): NetSpecs of ordinary nodes on a decimal grid 
         "scaled run's field / 10 as a rational number; all other fields are equal -- so events that coincide mathematically coincide "
         "in the simulation.  (b) float-vs-exact: continuous distributions, k in 20..30, same seed: records agree field-wise within 1e-9; "
         "cases whose closest distinct event dates are within 1e-7 are discarded and counted.  Non-trivial: >= 30 records and >= 2 "
-        "optional features; (a) additionally >= 1 instant with two coincident events; distinct by digest.")
+        "optional features; (a) additionally >= 1 instant with two coincident events; distinct by digest.  (c) exact_sums: the same "
+        "grid profile (more pre-emption) with every distribution wrapped in a logging pass-through: the k-th arrival of a stream is at the "
+        "rational partial sum of Decimal(str(sample)); every uninterrupted service lasts exactly its sample; resume / restart / "
+        "resample episodes at pre-emptive nodes add up exactly (no tolerance).")
 ASSUMPTIONS = ["float arithmetic on integers below 2^53 is exact (the scaled reference run)",
                "observation horizons are multiples of 0.25 so that they are represented exactly in both runs"]
 TECHNIQUE = 'metamorphic property-based testing: exact run on a decimal grid vs float run of the integer-scaled spec; differential exact vs float run on continuous inputs'
@@ -155,6 +158,56 @@ def scaled_execute(spec):
     return out
 
 
+class ExactSums(O.Monitor):
+    """Dates are exact decimal sums of the sampled values: with every distribution wrapped in a logging pass-through, the k-th arrival
+    of a stream is at the rational partial sum of Decimal(str(sample)); every uninterrupted service lasts exactly its sample; at
+    pre-emptive nodes (priorities, schedules, slots) resume / restart / resample episodes add up exactly (shared episodes audit)."""
+    name = "exact_sums"
+    P = ID
+
+    def __init__(self, spec):
+        self.spec = spec
+        self.activity = {}
+
+    def finish(self, Q, res):
+        if res.aborted:
+            return
+        from collections import defaultdict
+        from ..monitors import episodes
+        rep = lambda clause, d: Q.report(self.P, "C20." + clause, "audit", d)
+        arr = defaultdict(list)
+        for tag, t, ind, v in Q.built.samples:
+            if tag[0] == "arr":
+                arr[(tag[1], tag[2])].append(v)
+        events = defaultdict(list)
+        for e in Q.obslog:
+            if e[0] == "arrival_event":
+                events[(e[2], e[3])].append(e[1])
+        n = 0
+        for key, evs in events.items():
+            tot = Fraction(0)
+            for k, t in enumerate(evs):
+                if k >= len(arr[key]):
+                    break
+                x = episodes._exact(arr[key][k])
+                if isinstance(x, float):
+                    break
+                tot += x
+                n += 1
+                if not isinstance(t, Decimal) or Fraction(t) != tot:
+                    rep("arrival-date-is-the-exact-sum-of-samples", {"stream": key, "event": k, "time": repr(t), "exact_sum": str(tot)})
+                    break
+        self.activity["arrival_events"] = n
+
+        def option_of(nid):
+            nd = self.spec["nodes"][nid - 1]
+            a, b = nd.get("prio_preempt") or None, nd["servers"].get("preemption") or None
+            if nd.get("ps") or (a and b):
+                return None
+            return a or b or "none"
+        episodes.audit(Q, option_of, rep, self.activity, exact=True)
+
+
 def floatcmp_execute(spec):
     a = copy.deepcopy(spec)
     a.pop("exact", None)
@@ -214,7 +267,17 @@ def subchecks(tier):
     cont = S.Profile([f for f in ALLOWED if f != "zero_service"] + ["exact"], weights=w, required=("exact",), numeric="cont", max_nodes=3, max_classes=3,
                      plans=("max_time",), horizon=(5.0, 14.0), budget=800, resumptions=(1, 1),
                      excluded=common.EXCL["C20"] + ("exact_low_precision",))
+    from ..sysprop import system_subcheck
+    wa = dict(w, priorities=0.6, prio_preempt=0.7, sched_preempt=0.6)
+    audit = S.Profile(ALLOWED + ["exact"], weights=wa, required=("exact",), numeric="decgrid", max_nodes=3, max_classes=3, plans=("max_time",),
+                      horizon=(6.0, 20.0), budget=800, resumptions=(1, 1), load="heavy", excluded=common.EXCL["C20"])
+    exact_sums = system_subcheck("exact_sums", audit, lambda spec: [ExactSums(spec)],
+                                 lambda a, spec, res: a.get("arrival_events", 0) >= 10 and a.get("events", 0) >= 40,
+                                 classes=lambda a, spec, res: [k for k in ("episodes_checked",) if a.get(k)], obs=True, log=True,
+                                 n={"quick": 3600, "thorough": 20000},
+                                 rule="exact run on a 0.1 grid with logged samples: arrival dates and (interrupted) service episodes are exact rational sums of Decimal(str(sample))")
     return [
+        exact_sums,
         SubCheck("scaled", scaled_execute, strategy=S.netspec(grid), n={"quick": 4800, "thorough": 30000}, kind="metamorphic",
                  rule="exact run on a 0.1 grid vs float run of the x10-scaled (integer) spec"),
         SubCheck("floatcmp", floatcmp_execute, strategy=S.netspec(cont), n={"quick": 3600, "thorough": 20000}, kind="differential",
